@@ -237,15 +237,19 @@ harness("C14", args="op: int, c1: int, e1: int, c2: int, e2: int, p1: int, p2: i
 # operands closer than the 1e-20 comparison tolerance without being identical: 21..23 decimal places
 _NEAR = [(f"near_{_t(a)}_{_t(b)}_e{k}", f"p1 == {a} and p2 == {b} and fr == 0 and e1 == -{k} and e2 == 0 and c2 == {10 ** (a - b)} and {10 ** k} - 40 < c1 < {10 ** k} + 40")
          for (a, b) in ((0, 0), (3, 0), (24, 24), (-9, -12)) for k in (20, 21, 23)]
+# ... and operands of 10^9 and more units of the smaller prefix that differ by a fraction of one unit (rounding them to the
+# comparison precision takes more digits than the decimal context holds)
+_BIGNEAR = [(f"big_{_t(a)}_{_t(b)}_e{k}", f"p1 == {a} and p2 == {b} and fr == 0 and e1 == 0 and 1 <= c1 <= 3 and e2 == -{k} and c1 * {10 ** (a - b + k)} - 40 < c2 < c1 * {10 ** (a - b + k)} + 40")
+            for (a, b) in ((9, 0), (0, -9), (24, 3), (3, -9)) for k in (1, 3)]
 compare_total, _cr = _twins("compare_total", _compare, 7)
 harness("C14", args="c1: int, e1: int, c2: int, e2: int, p1: int, p2: int, fr: int",
         pre=[],
         tiers={"quick": {"timeout": 150, "pre": [],
-                         "parts": [(f"p{_t(a)}", f"p1 == {a} and fr == 0 and e1 == 0 and e2 == 0 and p2 in (-24, -9, 0, 3, 24) and -100 < c1 < 100 and -100 < c2 < 100") for a in PVALS] + _NEAR},
+                         "parts": [(f"p{_t(a)}", f"p1 == {a} and fr == 0 and e1 == 0 and e2 == 0 and p2 in (-24, -9, 0, 3, 24) and -100 < c1 < 100 and -100 < c2 < 100") for a in PVALS] + _NEAR + _BIGNEAR},
                "thorough": {"timeout": 600, "pre": [],
-                            "parts": [(f"p{_t(a)}_{_t(b)}", f"p1 == {a} and p2 == {b} and fr == 0 and -10**4 < c1 < 10**4 and -10**4 < c2 < 10**4 and -2 <= e1 <= 2 and -2 <= e2 <= 2") for a in PVALS for b in PVALS] + _NEAR}},
+                            "parts": [(f"p{_t(a)}_{_t(b)}", f"p1 == {a} and p2 == {b} and fr == 0 and -10**4 < c1 < 10**4 and -10**4 < c2 < 10**4 and -2 <= e1 <= 2 and -2 <= e2 <= 2") for a in PVALS for b in PVALS] + _NEAR + _BIGNEAR}},
         sample=(1, 0, 9, 0, 0, -9, 0), real_twin=_cr,
-        bounds="quick: |c| < 100, e = 0, 21 x 5 prefix pairs; thorough: |c| < 10^4, e in [-2,2], all 441 ordered prefix pairs; both: near-equal operands (value 1 +- k*10^-20 / 10^-21 / 10^-23 of the smaller prefix, |k| < 40) on 4 prefix pairs",
+        bounds="quick: |c| < 100, e = 0, 21 x 5 prefix pairs; thorough: |c| < 10^4, e in [-2,2], all 441 ordered prefix pairs; both: near-equal operands (value 1 +- k*10^-20 / 10^-21 / 10^-23 of the smaller prefix, |k| < 40) on 4 prefix pairs, and operands of 1..3 * 10^9 .. 10^21 units of the smaller prefix differing by k/10 or k/1000 of one unit (|k| < 40) on 4 prefix pairs 9..21 decades apart",
         generalises="both mantissas as integers", outside="larger mantissas")(compare_total)
 
 
@@ -370,7 +374,7 @@ REGISTRY.setdefault("C14", []).append(float_nearest.__harness__)
 
 
 @harness("C14", args="seed: int", concrete=True, sample=(0,),
-         bounds="concrete seed (no symbolic input, no model): the same post-conditions evaluated on the REAL hdl21.prefix over a fixed grid (9 unary and 3 binary operations and the comparisons x mantissas {0, +-1, +-15, +-999, 10^6+1, -(10^9+7)} x exponents {-2, 0, 1} x 6 prefix pairs); independent of the Decimal model, so it still decides something when the model gate fails")
+         bounds="concrete seed (no symbolic input, no model): the same post-conditions evaluated on the REAL hdl21.prefix over a fixed grid (9 unary and 3 binary operations and the comparisons x mantissas {0, +-1, +-15, +-999, 10^6+1, -(10^9+7)} x exponents {-2, 0, 1} x 6 prefix pairs; comparisons of operands of 10^9 and more units that differ by a fraction of one unit); independent of the Decimal model, so it still decides something when the model gate fails")
 def real_grid(seed):
     cs = (0, 1, -1, 15, -15, 999, -999, 10 ** 6 + 1, -(10 ** 9 + 7))
     es = (-2, 0, 1)
@@ -402,6 +406,20 @@ def real_grid(seed):
                         ok = False
                     if not ok:
                         bad.append(("compare", c, e, c2, p1, p2))
+    # large operands that differ by a fraction of one unit of the smaller prefix
+    for (p1, p2) in ((9, 0), (0, -9), (24, 3), (3, -9), (3, 3)):
+        for c1 in (1, 3, 123456789):
+            for k in (1, 2, 3):
+                for d in (-25, -5, -2, -1, 0, 1, 2, 5, 25):
+                    c2 = c1 * 10 ** (p1 - p2 + k) + d
+                    if c2 >= 10 ** 27:
+                        continue  # (operands beyond the 28-digit decimal context are outside the claim)
+                    try:
+                        ok = _cr(c1, 0, c2, -k, p1, p2, 0) and _cr(c2, -k, c1, 0, p2, p1, 0)
+                    except Exception:
+                        ok = False
+                    if not ok:
+                        bad.append(("compare-big", c1, c2, -k, p1, p2))
     env.reached()
     WHY = globals().setdefault("WHY", {})
     WHY["bad"] = bad[:5]
